@@ -143,6 +143,7 @@ func (c *diskCache) findMissingCasBlobsInternal(ctx context.Context, blobs []*pb
 		}()
 
 		// Wait for all proxyChecks to finish or a context cancellation.
+		c.verifGate("findmissing.wait")
 		select {
 		case <-ctx.Done():
 			if cancelledDueToFailFast {
